@@ -463,7 +463,23 @@ type node struct {
 	calls []Call
 }
 
-func explore(r *core.Run, engine string, b bounds) {
+// prefScore counts the key calls of a path made by the preferred route.
+func prefScore(calls []Call, pref string) int {
+	n := 0
+	for _, c := range calls {
+		if strings.HasPrefix(string(c), pref+":") {
+			n++
+		}
+	}
+	return n
+}
+
+// explore runs the search once. States are merged by the model's view of them and each state is
+// represented by one call path; pref names the key route that path should use wherever it has the
+// choice, so that over the passes (one per route) every state is entered with all its keys supplied
+// by AssembleEntry, by the key assembler with a string, and by the key assembler with a node — and
+// every call enabled there (all three routes again, every injected rejection) is then made from it.
+func explore(r *core.Run, engine string, b bounds, pref string) {
 	seen := map[string]bool{(&model{}).key(): true}
 	frontier := []node{{nil}}
 	var mu sync.Mutex
@@ -471,6 +487,7 @@ func explore(r *core.Run, engine string, b bounds) {
 	depth := 0
 	for len(frontier) > 0 && depth < b.maxCalls {
 		var next []node
+		level := map[string][]Call{}
 		core.ParallelFor(len(frontier), func(i int) {
 			cur := frontier[i]
 			_, m, ended := Run(engine, cur.calls, b)
@@ -493,8 +510,11 @@ func explore(r *core.Run, engine string, b bounds) {
 				mu.Lock()
 				merged := seen[k]
 				if !merged {
-					seen[k] = true
-					local = append(local, node{calls})
+					// first reached at this depth: among the paths of this depth the one using the preferred
+					// key route most represents the state
+					if old, ok := level[k]; !ok || prefScore(calls, pref) > prefScore(old, pref) {
+						level[k] = calls
+					}
 				}
 				mu.Unlock()
 				if merged {
@@ -515,19 +535,23 @@ func explore(r *core.Run, engine string, b bounds) {
 			trans += ltrans
 			mu.Unlock()
 		})
+		for k, calls := range level {
+			seen[k] = true
+			next = append(next, node{calls})
+		}
 		states += int64(len(frontier))
 		sort.Slice(next, func(i, j int) bool { return fmt.Sprint(next[i].calls) < fmt.Sprint(next[j].calls) })
 		frontier = next
 		depth++
 	}
 	if len(frontier) > 0 {
-		r.Set("frontier_left_at_call_bound_"+engine, len(frontier))
+		r.Set("frontier_left_at_call_bound_"+engine+"_prefer_"+pref, len(frontier))
 	}
 	r.States.Add(states)
 	r.Transitions.Add(trans)
 	r.Evals.Add(trans)
 	r.NontrivialN(trans)
-	r.Set("states_"+engine, states)
+	r.Set("states_"+engine+"_prefer_"+pref, states)
 }
 
 func Bounds(quick bool) bounds {
@@ -541,11 +565,13 @@ var Engines = []string{"basic-any", "basic-map", "basic-list"}
 
 func Main(r *core.Run) {
 	b := Bounds(r.Quick())
-	r.Rule(fmt.Sprintf("explicit-state breadth-first search over assembler call sequences: alphabet BeginMap/BeginList, AssignNull/Int/String, AssignNode(prebuilt scalar|map|list × basicnode|foreign), AssembleEntry(k), AssembleKey().AssignString(k)/AssignNode(k)+AssembleValue(), Finish, Build, Reset; keys %v, nesting ≤%d, ≤%d entries per container, ≤%d calls; a repeated key injected through all three key routes at every position where a key is present, a non-string key and (kind-specific builders) a wrong root kind injected at every position; state = contract model (open containers, phases, partial value, first rejection route); every transition replays the path on a fresh real builder. Non-trivial: every transition (distinct call sequence).", b.keys, b.maxDepth, b.maxEntries, b.maxCalls))
+	r.Rule(fmt.Sprintf("explicit-state breadth-first search over assembler call sequences: alphabet BeginMap/BeginList, AssignNull/Int/String, AssignNode(prebuilt scalar|map|list × basicnode|foreign), AssembleEntry(k), AssembleKey().AssignString(k)/AssignNode(k)+AssembleValue(), Finish, Build, Reset; keys %v, nesting ≤%d, ≤%d entries per container, ≤%d calls; a repeated key injected through all three key routes at every position where a key is present, a non-string key and (kind-specific builders) a wrong root kind injected at every position; state = contract model (open containers, phases, partial value, first rejection route); every transition replays the path on a fresh real builder; one pass per key route, in which the path representing each merged state supplies its keys by that route wherever it has the choice; a path merged away is completed by the shortest legal call sequence and its product compared. Non-trivial: every transition (distinct call sequence).", b.keys, b.maxDepth, b.maxEntries, b.maxCalls))
 	r.Assume("call orders the contract declares misuse are not generated")
 	r.Assume("typed engines (reflection binding; generated code when linked): map-shaped assemblers of every family root (structs with map representation incl. renames/optionals, typed maps) at both levels — keys through all three routes, repeated keys injected at every state, Finish with and without the required fields, Build compared with the model")
 	for _, e := range Engines {
-		explore(r, e, b)
+		for _, pref := range []string{"Entry", "KeyString", "KeyNode"} {
+			explore(r, e, b, pref)
+		}
 	}
 	r.Sample(Case{"basic-any", []Call{"BeginMap", "Entry:a", "AssignInt", "KeyString:a", "KeyNode:b", "BeginList", "Finish", "Finish", "Build"}})
 	typedMain(r, b)
